@@ -76,8 +76,10 @@ int32_t jls_copy(const char * src, const char * dst,
             rc = jls_raw_chunk_scan(rd);
             if (rc) {
                 MSG_ERROR("jls_raw_chunk_scan", rc);
-                return rc;
+                break;  // no further chunk: the source ends here (unclosed or truncated)
             }
+            offset = jls_raw_chunk_tell(rd);
+            continue;  // resynchronized: read the header of the chunk that was found
         }
         // printf("%" PRIi64 " %d %" PRIu32 "\n", offset, hdr.tag, hdr.payload_length);
         // the on-disk payload includes up to 7 pad bytes and the 4-byte CRC
@@ -92,7 +94,7 @@ int32_t jls_copy(const char * src, const char * dst,
             rc = jls_raw_chunk_next(rd);
             if (rc) {
                 MSG_ERROR("jls_raw_chunk_next", rc);
-                return JLS_ERROR_IO;
+                break;  // incomplete final chunk: the source ends here (unclosed or truncated)
             }
             offset = jls_raw_chunk_tell(rd);
             continue;
